@@ -364,6 +364,15 @@ class ExtModule:
 EXT_HOOKS = {}   # dotted name -> value or factory, filled by contract modules (deps_*.py)
 
 
+def b_isclose(ex, a, b, rel_tol=1e-09, abs_tol=0.0):
+    if abs_tol != 0.0:
+        raise Unsupported('isclose abs_tol')
+    return V.isclose(ex.concretize(a), ex.concretize(b), rel_tol)
+
+
+EXT_HOOKS['math.isclose'] = Builtin('math.isclose', b_isclose)
+
+
 def external(dotted):
     if dotted in EXT_HOOKS:
         return EXT_HOOKS[dotted]
@@ -686,8 +695,21 @@ LIST_METHODS = {'append': m_list_append, 'extend': m_list_extend, 'remove': m_li
                 'pop': m_list_pop, 'copy': m_list_copy}
 
 
+CONST_TABLES = {}
+
+
+def register_const_table(d, name):
+    CONST_TABLES[id(d)] = name
+    for k, v in d.items():
+        if isinstance(v, dict):
+            register_const_table(v, f'{name}[{k!r}]')
+
+
 def m_dict_get(ex, d, k, default=None):
     k = ex.concretize(k)
+    if isinstance(k, (Sym, SStr)) and id(d) in CONST_TABLES:
+        from .abstract import TableGet
+        return TableGet(d, k, default, CONST_TABLES[id(d)])
     if isinstance(k, (Sym, SStr)):
         alts = []
         none_g = []
